@@ -580,3 +580,80 @@ Section Index.
     rewrite Ht. destruct (keq (fst p) k); simpl; rewrite IH; congruence.
   Qed.
 End Index.
+
+(** * Undoing an insertion *)
+
+Lemma remove_first_snoc x l : ~ In x l -> remove_first x (l ++ [x]) = l.
+Proof.
+  induction l as [|a l IH]; simpl; intros H.
+  - rewrite name_eqb_refl. reflexivity.
+  - destruct (name_eqb_spec x a) as [E|_]; [exfalso; apply H; left; symmetry; exact E|].
+    f_equal. apply IH. intros Hin. apply H. right; exact Hin.
+Qed.
+
+Lemma find_edge_app_r s d es es' :
+  find_edge s d es = None -> find_edge s d (es ++ es') = find_edge s d es'.
+Proof.
+  induction es as [|a es IH]; simpl; [reflexivity|].
+  destruct (name_eqb s (esrc a) && name_eqb d (edst a)); [discriminate|exact IH].
+Qed.
+
+Lemma find_edge_app_l s d es es' e :
+  find_edge s d es = Some e -> find_edge s d (es ++ es') = Some e.
+Proof.
+  induction es as [|a es IH]; simpl; [discriminate|].
+  destruct (name_eqb s (esrc a) && name_eqb d (edst a)); [trivial|exact IH].
+Qed.
+
+Lemma drop_edge_absent s d es : ~ In (s, d) (map edge_key es) -> drop_edge s d es = es.
+Proof.
+  intros H. unfold drop_edge. apply filter_all. intros x Hx. fold (key_is s d x).
+  apply negb_true_iff, key_is_false. intros E. apply H. rewrite <- E. apply in_map, Hx.
+Qed.
+
+Lemma upd2_compose fi1 fo1 fi2 fo2 s d ns :
+  upd2 fi2 fo2 s d (upd2 fi1 fo1 s d ns)
+  = upd2 (fun l => fi2 (fi1 l)) (fun l => fo2 (fo1 l)) s d ns.
+Proof.
+  unfold upd2, update_node. rewrite !map_map. apply map_ext. intros n.
+  destruct (name_eqb d (nid n)) eqn:Ed; destruct (name_eqb s (nid n)) eqn:Es;
+    unfold set_inb, set_outb;
+    repeat progress (cbn [nid ninb noutb nvt nmeta]; rewrite ?Ed, ?Es); reflexivity.
+Qed.
+
+Lemma upd2_id fi fo s d ns :
+  (forall n, In n ns -> (nid n = d -> fi (ninb n) = ninb n)
+                        /\ (nid n = s -> fo (noutb n) = noutb n)) ->
+  upd2 fi fo s d ns = ns.
+Proof.
+  intros H. unfold upd2, update_node. rewrite map_map.
+  rewrite <- (map_id ns) at 2. apply map_ext_in. intros n Hn. destruct (H n Hn) as [A B].
+  destruct (name_eqb_spec d (nid n)) as [Ed|Ed]; unfold set_inb, set_outb;
+    cbn [nid ninb noutb nvt nmeta];
+    destruct (name_eqb_spec s (nid n)) as [Es|Es]; cbn [nid ninb noutb nvt nmeta];
+    rewrite ?(A (eq_sym Ed)), ?(B (eq_sym Es)); destruct n; reflexivity.
+Qed.
+
+Lemma in_dinto es n x :
+  In x (dinto es n) <-> exists e, In e es /\ ety e = Dir /\ esrc e = x /\ edst e = n.
+Proof.
+  unfold dinto. rewrite in_map_iff. split.
+  - intros (e & Hx & He). apply filter_In in He. destruct He as [He Hp].
+    apply andb_true_iff in Hp. destruct Hp as [Hd Hn].
+    exists e. split; [exact He|]. split; [destruct (etype_eqb_spec (ety e) Dir); congruence|].
+    split; [exact Hx|]. apply name_eqb_eq in Hn. congruence.
+  - intros (e & He & Hd & Hx & Hn). exists e. split; [exact Hx|]. apply filter_In.
+    split; [exact He|]. rewrite Hd, Hn, name_eqb_refl. reflexivity.
+Qed.
+
+Lemma in_dfrom es n x :
+  In x (dfrom es n) <-> exists e, In e es /\ ety e = Dir /\ esrc e = n /\ edst e = x.
+Proof.
+  unfold dfrom. rewrite in_map_iff. split.
+  - intros (e & Hx & He). apply filter_In in He. destruct He as [He Hp].
+    apply andb_true_iff in Hp. destruct Hp as [Hd Hn].
+    exists e. split; [exact He|]. split; [destruct (etype_eqb_spec (ety e) Dir); congruence|].
+    split; [|exact Hx]. apply name_eqb_eq in Hn. congruence.
+  - intros (e & He & Hd & Hn & Hx). exists e. split; [exact Hx|]. apply filter_In.
+    split; [exact He|]. rewrite Hd, Hn, name_eqb_refl. reflexivity.
+Qed.
